@@ -45,14 +45,14 @@ Proof. intros [H1 H2] [H3 H4]. split; congruence. Qed.
 
 Lemma proj_gmap {A B} (f : A -> B) (v : gval A) : proj (gmap f v) = proj v.
 Proof.
-  induction v as [| | | | |a IHa b IHb| |a IHa| |k t h|bb|la lr lbody]; simpl; try reflexivity.
+  induction v as [| | | | |a IHa b IHb| |a IHa| |k t h|bb|la lr lbody|lt ll]; simpl; try reflexivity.
   - rewrite IHa, IHb. reflexivity.
   - rewrite IHa. reflexivity.
 Qed.
 
 Lemma type_of_gmap {A B} (f : A -> B) (v : gval A) : type_of (gmap f v) = type_of v.
 Proof.
-  induction v as [| | | | |a IHa b IHb| |a IHa| |k t h|bb|la lr lbody]; simpl; try reflexivity.
+  induction v as [| | | | |a IHa b IHb| |a IHa| |k t h|bb|la lr lbody|lt ll]; simpl; try reflexivity.
   - rewrite IHa, IHb. reflexivity.
   - rewrite IHa. reflexivity.
 Qed.
@@ -60,7 +60,7 @@ Qed.
 Lemma gmap_gmap {A B C} (f : A -> B) (g : B -> C) (v : gval A) :
   gmap g (gmap f v) = gmap (fun x => g (f x)) v.
 Proof.
-  induction v as [| | | | |a IHa b IHb| |a IHa| |k t h|bb|la lr lbody]; simpl; try reflexivity.
+  induction v as [| | | | |a IHa b IHb| |a IHa| |k t h|bb|la lr lbody|lt ll]; simpl; try reflexivity.
   - rewrite IHa, IHb. reflexivity.
   - rewrite IHa. reflexivity.
 Qed.
@@ -68,7 +68,7 @@ Qed.
 Lemma gmap_ext {A B} (f g : A -> B) (v : gval A) :
   (forall x, In x (handles_of v) -> f x = g x) -> gmap f v = gmap g v.
 Proof.
-  induction v as [| | | | |a IHa b IHb| |a IHa| |k t h|bb|la lr lbody]; simpl; intro H; try reflexivity.
+  induction v as [| | | | |a IHa b IHb| |a IHa| |k t h|bb|la lr lbody|lt ll]; simpl; intro H; try reflexivity.
   - rewrite IHa, IHb; auto; intros x Hx; apply H; apply in_or_app; auto.
   - rewrite IHa; auto.
   - rewrite H; auto.
@@ -77,7 +77,7 @@ Qed.
 Lemma gmap_inj_sval {B} (f : handle -> B) (v : sval) : gmap f (inj v) = inj v.
 Proof.
   unfold inj.
-  induction v as [| | | | |a IHa b IHb| |a IHa| |k t h|bb|la lr lbody]; simpl; try reflexivity.
+  induction v as [| | | | |a IHa b IHb| |a IHa| |k t h|bb|la lr lbody|lt ll]; simpl; try reflexivity.
   - rewrite IHa, IHb. reflexivity.
   - rewrite IHa. reflexivity.
   - destruct h.
@@ -86,7 +86,7 @@ Qed.
 Lemma vwf_inj cur (v : sval) : vwf cur (inj v).
 Proof.
   unfold inj.
-  induction v as [| | | | |a IHa b IHb| |a IHa| |k t h|bb|la lr lbody]; simpl; auto.
+  induction v as [| | | | |a IHa b IHb| |a IHa| |k t h|bb|la lr lbody|lt ll]; simpl; auto.
   destruct h.
 Qed.
 
@@ -95,7 +95,7 @@ Proof. unfold cz. rewrite gmap_gmap. reflexivity. Qed.
 
 Lemma vwf_cz v : vwf 0 (cz v).
 Proof.
-  induction v as [| | | | |a IHa b IHb| |a IHa| |k t h|bb|la lr lbody]; simpl; auto.
+  induction v as [| | | | |a IHa b IHb| |a IHa| |k t h|bb|la lr lbody|lt ll]; simpl; auto.
 Qed.
 
 Lemma lwf_cz l : lwf 0 (map cz l).
@@ -103,7 +103,7 @@ Proof. induction l as [|a r IH]; simpl; auto using vwf_cz. Qed.
 
 Lemma cz_rebind old new v : vwf old v -> cz (gmap (rebind old new) v) = cz v /\ vwf new (gmap (rebind old new) v).
 Proof.
-  induction v as [| | | | |a IHa b IHb| |a IHa| |k t h|bb|la lr lbody]; simpl; intro H; auto.
+  induction v as [| | | | |a IHa b IHb| |a IHa| |k t h|bb|la lr lbody|lt ll]; simpl; intro H; auto.
   - destruct H as [Ha Hb]. destruct (IHa Ha) as [E1 W1]. destruct (IHb Hb) as [E2 W2].
     unfold cz in *. simpl. rewrite E1, E2. auto.
   - destruct (IHa H) as [E1 W1]. unfold cz in *. simpl. rewrite E1. auto.
@@ -190,6 +190,28 @@ Proof. destruct o as [x|]; simpl; auto using vwf_inj. Qed.
 (* ---------------------------------------------------------------------------------------- *)
 (* Michelson instructions commute with [canon] and keep the invariant                       *)
 (* ---------------------------------------------------------------------------------------- *)
+
+Lemma lit_of_cz v : lit_of (cz v) = lit_of v.
+Proof.
+  induction v as [|z|z|str|z|a IHa b IHb|t0|a IHa|t0|k t h|bb|la lr lbody|lt ll]; simpl; try reflexivity.
+  - fold cz. rewrite IHa, IHb. reflexivity.
+  - fold cz. rewrite IHa. reflexivity.
+Qed.
+
+Lemma proj_atom_cz v : proj_atom (cz v) = proj_atom v.
+Proof. destruct v; reflexivity. Qed.
+
+Lemma cz_inj_atom x : cz (inj_atom x) = inj_atom x.
+Proof. destruct x; reflexivity. Qed.
+
+Lemma vwf_inj_atom cur x : vwf cur (inj_atom x).
+Proof. destruct x; exact I. Qed.
+
+Lemma cz_mklist t l : cz (mklist t l) = mklist t l.
+Proof. destruct l; reflexivity. Qed.
+
+Lemma vwf_mklist cur t l : vwf cur (mklist t l).
+Proof. destruct l; exact I. Qed.
 
 Definition ostep (o : option session) : option session := option_map canon o.
 
@@ -305,6 +327,28 @@ Proof.
     simpl. split; [reflexivity|intros; discriminate].
   - (* PATCH *)
     simpl. split; [reflexivity|]. intros s' E. injection E as <-. simpl in *. tauto.
+  - (* { .. } *)
+    simpl. split; [reflexivity|intros; discriminate].
+  - (* APPLY *)
+    destruct st as [|cap [|l rest]]; simpl; try (split; [reflexivity|intros; discriminate]).
+    destruct l; simpl; try (split; [reflexivity|intros; discriminate]).
+    destruct a; simpl; try (split; [reflexivity|intros; discriminate]).
+    fold cz. change (type_of (cz cap)) with (type_of (gmap (set_ctx 0) cap)). rewrite type_of_gmap, lit_of_cz.
+    destruct (ty_eqb (type_of cap) a1); [|split; [reflexivity|intros; discriminate]].
+    split; [reflexivity|]. intros s' E. injection E as <-. simpl in *. tauto.
+  - (* CONS *)
+    destruct st as [|x [|l rest]]; simpl; try (split; [reflexivity|intros; discriminate]).
+    fold cz. destruct l; simpl; try (split; [reflexivity|intros; discriminate]);
+      rewrite proj_atom_cz; (destruct (proj_atom x) as [a|]; [|split; [reflexivity|intros; discriminate]]);
+      change (type_of (cz x)) with (type_of (gmap (set_ctx 0) x)); rewrite type_of_gmap;
+      (destruct (ty_eqb (type_of x) t); [|split; [reflexivity|intros; discriminate]]);
+      (split; [reflexivity|]); intros s' E; injection E as <-; simpl in *; tauto.
+  - (* ITER *)
+    simpl. split; [reflexivity|intros; discriminate].
+  - (* IF_CONS *)
+    simpl. split; [reflexivity|intros; discriminate].
+  - (* MAP *)
+    simpl. split; [reflexivity|intros; discriminate].
 Qed.
 
 (* outcomes related by [canon]: both finish (canonical images equal, same outputs) or both fail,
@@ -348,7 +392,7 @@ Qed.
 (* induction on instructions with access to the hypothesis for the nested bodies *)
 Definition flat (i : minstr) : Prop :=
   match i with
-  | MDip _ | MIfNone _ _ | MDipN _ _ | MIf _ _ | MLoop _ | MExec => False
+  | MDip _ | MIfNone _ _ | MDipN _ _ | MIf _ _ | MLoop _ | MExec | MSeq _ | MIter _ | MIfCons _ _ | MMap _ => False
   | _ => True
   end.
 
@@ -361,6 +405,10 @@ Section MinstrInd.
   Hypothesis HIf : forall bt bf, Forall P bt -> Forall P bf -> P (MIf bt bf).
   Hypothesis HLoop : forall b, Forall P b -> P (MLoop b).
   Hypothesis HExec : P MExec.
+  Hypothesis HSeq : forall b, Forall P b -> P (MSeq b).
+  Hypothesis HIter : forall b, Forall P b -> P (MIter b).
+  Hypothesis HIfCons : forall bt bf, Forall P bt -> Forall P bf -> P (MIfCons bt bf).
+  Hypothesis HMap : forall b, Forall P b -> P (MMap b).
 
   Fixpoint minstr_ind' (i : minstr) : P i :=
     let fix go (l : list minstr) : Forall P l :=
@@ -375,6 +423,12 @@ Section MinstrInd.
     | MIf bt bf => HIf bt bf (go bt) (go bf)
     | MLoop b => HLoop b (go b)
     | MExec => HExec
+    | MSeq b => HSeq b (go b)
+    | MApply => Hflat MApply I
+    | MCons => Hflat MCons I
+    | MIter b => HIter b (go b)
+    | MIfCons bt bf => HIfCons bt bf (go bt) (go bf)
+    | MMap b => HMap b (go b)
     | MPush t l => Hflat (MPush t l) I
     | MDrop => Hflat MDrop I | MDup => Hflat MDup I | MSwap => Hflat MSwap I | MPair => Hflat MPair I
     | MUnpair => Hflat MUnpair I | MCar => Hflat MCar I | MCdr => Hflat MCdr I | MSome => Hflat MSome I
@@ -461,6 +515,84 @@ Lemma mexec_exec f s :
   | _ => Failed false s
   end.
 Proof. reflexivity. Qed.
+
+Lemma mexec_seq f body s : mexec (S f) (MSeq body) s = runl (mexec (S f)) body s.
+Proof. reflexivity. Qed.
+
+Lemma mexec_iter f body s :
+  mexec (S f) (MIter body) s =
+  match s_stack s with
+  | GNil _ :: r => Done (with_stack s r)
+  | GList _ l :: r => iterl (mexec (S f)) body l (with_stack s r)
+  | _ => Failed false s
+  end.
+Proof. reflexivity. Qed.
+
+Lemma mexec_ifcons f bt bf s :
+  mexec (S f) (MIfCons bt bf) s =
+  match s_stack s with
+  | GList t (x :: l) :: r => runl (mexec (S f)) bt (with_stack s (inj_atom x :: mklist t l :: r))
+  | GNil _ :: r => runl (mexec (S f)) bf (with_stack s r)
+  | _ => Failed false s
+  end.
+Proof. reflexivity. Qed.
+
+Lemma iterl_canon ex body (Hb : Pl ex body) l : forall s,
+  swf s ->
+  mrel (iterl ex body l s) (iterl ex body l (canon s)) /\
+  (forall s', iterl ex body l s = Done s' -> swf s' /\ frame s s').
+Proof.
+  induction l as [|x r IH]; intros s W; cbn [iterl].
+  - split; [reflexivity|]. intros s' E. injection E as <-. auto using frame_refl.
+  - assert (W0 : swf (with_stack s (inj_atom x :: s_stack s))) by (split; [apply vwf_inj_atom|exact W]).
+    destruct (Hb _ W0) as [R1 R2].
+    assert (Ec : canon (with_stack s (inj_atom x :: s_stack s)) = with_stack (canon s) (inj_atom x :: s_stack (canon s))).
+    { unfold canon, with_stack. simpl. rewrite cz_inj_atom. reflexivity. }
+    rewrite <- Ec.
+    destruct (runl ex body (with_stack s (inj_atom x :: s_stack s))) as [s1|b sf],
+             (runl ex body (canon (with_stack s (inj_atom x :: s_stack s)))) as [c1|b' cf]; simpl in R1; try contradiction.
+    + subst c1. destruct (R2 s1 eq_refl) as [W1 F1]. destruct (IH s1 W1) as [R3 R4].
+      split; [exact R3|]. intros s' E. destruct (R4 s' E) as [W' F'].
+      split; [exact W'|]. apply (frame_trans _ s1); [|exact F']. destruct F1 as [A B]. split; [exact A|exact B].
+    + split; [exact R1|]. intros; discriminate.
+Qed.
+
+Lemma mexec_map f body s :
+  mexec (S f) (MMap body) s =
+  match s_stack s with
+  | GNil t :: r => Done s
+  | GList _ l :: r => mapl (mexec (S f)) body l [] (with_stack s r)
+  | _ => Failed false s
+  end.
+Proof. reflexivity. Qed.
+
+Lemma mapl_canon ex body (Hb : Pl ex body) l : forall acc s,
+  swf s ->
+  mrel (mapl ex body l acc s) (mapl ex body l acc (canon s)) /\
+  (forall s', mapl ex body l acc s = Done s' -> swf s' /\ frame s s').
+Proof.
+  induction l as [|x r IH]; intros acc s W; cbn [mapl].
+  - destruct acc as [|a0 acc']; [split; [reflexivity|]; intros s' E; injection E as <-; auto using frame_refl|].
+    destruct (forallb _ (a0 :: acc')); [|split; [reflexivity|intros; discriminate]].
+    split; [reflexivity|]. intros s' E. injection E as <-. split; [split; [exact I|exact W]|split; reflexivity].
+  - assert (W0 : swf (with_stack s (inj_atom x :: s_stack s))) by (split; [apply vwf_inj_atom|exact W]).
+    destruct (Hb _ W0) as [R1 R2].
+    assert (Ec : canon (with_stack s (inj_atom x :: s_stack s)) = with_stack (canon s) (inj_atom x :: s_stack (canon s))).
+    { unfold canon, with_stack. simpl. rewrite cz_inj_atom. reflexivity. }
+    rewrite <- Ec.
+    destruct (runl ex body (with_stack s (inj_atom x :: s_stack s))) as [s1|b sf],
+             (runl ex body (canon (with_stack s (inj_atom x :: s_stack s)))) as [c1|b' cf]; simpl in R1; try contradiction.
+    + subst c1. destruct (R2 s1 eq_refl) as [W1 F1].
+      destruct s1 as [st1 cur1 ctx1 stale1 nxt1]. unfold swf in W1. simpl in W1. simpl s_stack.
+      destruct st1 as [|res st']; simpl map; [split; [reflexivity|intros; discriminate]|].
+      cbv beta iota. rewrite proj_atom_cz. destruct (proj_atom res) as [a|]; [|split; [reflexivity|intros; discriminate]].
+      destruct W1 as [Wres Wst].
+      assert (W2 : swf (with_stack (mkS (res :: st') cur1 ctx1 stale1 nxt1) st')) by exact Wst.
+      destruct (IH (acc ++ [a]) _ W2) as [R3 R4].
+      split; [exact R3|]. intros s' E. destruct (R4 s' E) as [W' F'].
+      split; [exact W'|]. destruct F1 as [A B], F' as [C D]. simpl in *. split; congruence.
+    + split; [exact R1|]. intros; discriminate.
+Qed.
 
 Lemma lwf_app cur a b : lwf cur a -> lwf cur b -> lwf cur (a ++ b).
 Proof. induction a as [|x a IH]; simpl; [auto|]. intros [Hx Ha] Hb. auto. Qed.
@@ -587,6 +719,45 @@ Proof.
         split; [reflexivity|]. intros s' E. injection E as <-. unfold swf, frame. simpl.
         destruct W1 as [Wres _]. repeat split; auto.
       * split; [exact R1|]. intros; discriminate.
+
+    + (* { .. } *)
+      intros body Hb s W. rewrite !mexec_seq. exact (runl_forall _ body Hb s W).
+    + (* ITER *)
+      intros body Hb s W. rewrite !mexec_iter.
+      destruct s as [st cur ctx stale nxt]. destruct st as [|top r]; simpl s_stack; [split; [reflexivity|intros; discriminate]|].
+      simpl map. unfold swf in W. simpl in W. destruct W as [Wt Wr].
+      destruct top; simpl cz; try (split; [reflexivity|intros; discriminate]).
+      * split; [reflexivity|]. intros s' E. injection E as <-. split; [exact Wr|split; reflexivity].
+      * assert (W0 : swf (with_stack (mkS ((GList t l : value) :: r) cur ctx stale nxt) r)) by exact Wr.
+        destruct (iterl_canon _ body (runl_forall _ body Hb) l _ W0) as [R1 R2].
+        split; [exact R1|]. intros s' E. destruct (R2 s' E) as [W' F']. split; [exact W'|exact F'].
+    + (* IF_CONS *)
+      intros bt bf Ht Hf s W. rewrite !mexec_ifcons.
+      destruct s as [st cur ctx stale nxt]. destruct st as [|top r]; simpl s_stack; [split; [reflexivity|intros; discriminate]|].
+      simpl map. unfold swf in W. simpl in W. destruct W as [Wt Wr].
+      destruct top; simpl cz; try (split; [reflexivity|intros; discriminate]).
+      * assert (W0 : swf (with_stack (mkS ((GNil t : value) :: r) cur ctx stale nxt) r)) by exact Wr.
+        destruct (runl_forall _ bf Hf _ W0) as [R1 R2].
+        split; [exact R1|]. intros s' E. destruct (R2 s' E) as [W' F']. split; [exact W'|exact F'].
+      * destruct l as [|x l]; [split; [reflexivity|intros; discriminate]|].
+        assert (W0 : swf (with_stack (mkS ((GList t (x :: l) : value) :: r) cur ctx stale nxt) (inj_atom x :: mklist t l :: r)))
+          by (repeat split; [apply vwf_inj_atom|apply vwf_mklist|exact Wr]).
+        destruct (runl_forall _ bt Ht _ W0) as [R1 R2].
+        assert (Ec : canon (with_stack (mkS ((GList t (x :: l) : value) :: r) cur ctx stale nxt) (inj_atom x :: mklist t l :: r))
+                     = with_stack (canon (mkS ((GList t (x :: l) : value) :: r) cur ctx stale nxt)) (inj_atom x :: mklist t l :: map cz r)).
+        { unfold canon, with_stack. simpl. rewrite cz_inj_atom. fold cz. rewrite cz_mklist. reflexivity. }
+        change (cz (@GList handle t (x :: l))) with (@GList handle t (x :: l)). cbv beta iota.
+        rewrite <- Ec.
+        split; [exact R1|]. intros s' E. destruct (R2 s' E) as [W' F']. split; [exact W'|exact F'].
+    + (* MAP *)
+      intros body Hb s W. rewrite !mexec_map.
+      destruct s as [st cur ctx stale nxt]. destruct st as [|top r]; simpl s_stack; [split; [reflexivity|intros; discriminate]|].
+      simpl map. unfold swf in W. simpl in W. destruct W as [Wt Wr].
+      destruct top; simpl cz; try (split; [reflexivity|intros; discriminate]).
+      * split; [reflexivity|]. intros s' E. injection E as <-. split; [split; [exact I|exact Wr]|split; reflexivity].
+      * assert (W0 : swf (with_stack (mkS ((GList t l : value) :: r) cur ctx stale nxt) r)) by exact Wr.
+        destruct (mapl_canon _ body (runl_forall _ body Hb) l [] _ W0) as [R1 R2].
+        split; [exact R1|]. intros s' E. destruct (R2 s' E) as [W' F']. split; [exact W'|exact F'].
 Qed.
 
 Lemma mrun_canon fuel l : forall s,
@@ -600,7 +771,7 @@ Qed.
 Lemma attach_canon cp cur v : forall c,
   attach cp 0 v c = (cz (fst (attach cp cur v c)), snd (attach cp cur v c)) /\ vwf cur (fst (attach cp cur v c)).
 Proof.
-  induction v as [| | | | |a IHa b IHb| |a IHa| |k t h|bb|la lr lbody]; intro c; simpl; auto.
+  induction v as [| | | | |a IHa b IHb| |a IHa| |k t h|bb|la lr lbody|lt ll]; intro c; simpl; auto.
   - destruct (IHa c) as [Ea Wa]. rewrite Ea.
     destruct (attach cp cur a c) as [a' c1]. simpl in *.
     destruct (IHb c1) as [Eb Wb]. rewrite Eb.
@@ -638,7 +809,7 @@ Lemma aggregate_canon v : forall s,
   (forall v' d s', aggregate v s = Some (v', d, s') ->
      vwf (s_cur s) v' /\ frame s s' /\ s_stack s' = s_stack s).
 Proof.
-  induction v as [|z|z|str|z|a IHa b IHb|t0|a IHa|t0|k t h|bb|la lr lbody]; intros s W; simpl;
+  induction v as [|z|z|str|z|a IHa b IHb|t0|a IHa|t0|k t h|bb|la lr lbody|lt ll]; intros s W; simpl;
     try (split; [reflexivity | intros v' d s' E; injection E as <- _ <-; simpl; auto using frame_refl]).
   - destruct W as [Wa Wb]. destruct (IHa s Wa) as [Ea Fa]. fold cz. rewrite Ea.
     destruct (aggregate a s) as [[[a' d1] s1]|]; [|split; [reflexivity|intros; discriminate]].
@@ -973,7 +1144,7 @@ Fixpoint alias_safe (fuel : nat) (s : session) (cells : list cell) : bool :=
 
 Lemma gmap_no_handles (f : handle -> handle) v : no_handles v = true -> gmap f v = v.
 Proof.
-  induction v as [|z|z|str|z|a IHa b IHb|t0|a IHa|t0|k t h|bb|la lr lbody]; simpl; intro H; try reflexivity.
+  induction v as [|z|z|str|z|a IHa b IHb|t0|a IHa|t0|k t h|bb|la lr lbody|lt ll]; simpl; intro H; try reflexivity.
   - apply andb_true_iff in H. destruct H as [Ha Hb]. rewrite IHa, IHb; auto.
   - rewrite IHa; auto.
   - discriminate.
